@@ -71,7 +71,7 @@ void unplace(const std::vector<Wav>& ws) { for (auto& w : ws) remove(w.path.c_st
 
 std::vector<uint8_t> slurp(const std::string& p) { std::vector<uint8_t> v; read_file(p, v); return v; }
 
-void success_case(std::vector<Wav> ws, const refclm::WaveFormat& f, Tape& t, Stats& st) {
+void success_case(std::vector<Wav> ws, const refclm::WaveFormat& f, Tape& t, Stats& st, const unsigned* fixedOps = nullptr) {
 	place(ws);
 	std::vector<std::string> paths;
 	for (auto& w : ws) { unsigned sp = unsigned(t.below(6)); std::string q = w.path; size_t ls = q.rfind('/');
@@ -134,6 +134,14 @@ void success_case(std::vector<Wav> ws, const refclm::WaveFormat& f, Tape& t, Sta
 		remove(out2.c_str());
 	}
 	for (auto& w : ws) { refclm::WaveFormat xf; std::vector<uint8_t> xd; err = refclm::parse_extracted(slurp("%x/all/" + w.base), xf, xd); V_CHECK(err.empty() && xd == w.spec.data && xf == f, "ExtractAllFiles output for " << jstr(w.base) << " wrong: " << err); remove(("%x/all/" + w.base).c_str()); }
+	// a session of calls in tape-chosen (or enumerated) order on ONE archive object, refused calls included (vol_common.h)
+	if (!ws.empty() && (fixedOps || !t.empty())) {
+		std::vector<std::string> names; std::vector<std::vector<uint8_t>> streams; for (size_t i : idx) { names.push_back(ws[i].base); streams.push_back(ws[i].spec.data); }
+		ClmFile c2(out);
+		volgen::Session<ClmFile> se{c2, names, streams, [&](size_t i, const std::string& p) { refclm::WaveFormat xf; std::vector<uint8_t> xd; std::string e2 = refclm::parse_extracted(slurp(p), xf, xd); V_CHECK(e2.empty(), "session: WAV extracted for member " << i << " is not self-consistent: " << e2); V_CHECK(xf == f, "session: extracted WAV does not carry the common format"); V_CHECK(xd == streams[i], "session: WAV extracted for member " << i << " " << jstr(names[i]) << " carries other audio data (" << xd.size() << " vs " << streams[i].size() << " bytes)"); }, {}, {}, {}};
+		if (fixedOps) { typedef volgen::Session<ClmFile> S; const unsigned ops[] = {S::ExtractGood, S::ExtractOntoDirectory, S::StreamWhole, S::StreamHold}; for (int k = 0; k < 3; ++k) se.step(ops[fixedOps[k] / 3], fixedOps[k] % 3, unsigned(k)); for (size_t i = 0; i < names.size(); ++i) { se.step(S::StreamWhole, i, 0); se.step(S::ExtractGood, i, 0); } se.finish(); }
+		else se.run(t, st, unsigned(t.below(13)));
+	}
 	bool chunky = false; for (auto& w : ws) { if (!w.spec.afterData.empty()) { chunky = true; st.cls("src:chunk_after_data"); } if (!w.spec.beforeFmt.empty()) { chunky = true; st.cls("src:chunk_before_fmt"); } if (!w.spec.between.empty()) st.cls("src:chunk_between"); if (!w.spec.fmt18) st.cls("src:fmt16"); if (w.spec.data.size() & 1) st.cls("src:odd_data"); }
 	st.cls("tracks:" + std::to_string(ws.size()));
 	if (ws.size() >= 2 && chunky) { uint64_t h = 3; for (auto& w : ws) h = fnv1a(w.bytes.data(), w.bytes.size(), fnv1a(w.base.data(), w.base.size(), h)); st.nt(h); }
@@ -252,6 +260,13 @@ void run_sweep(Stats& st) {
 			w.bytes = refclm::build_wav(w.spec); ws.push_back(w);
 		}
 		Tape t(tp); success_case(ws, f, t, st);
+	}
+	// every three-call session over {extract, extract onto a directory, stream, stream kept open} x three tracks on one archive object
+	for (unsigned x = 0; x < 12; ++x) for (unsigned y = 0; y < 12; ++y) for (unsigned z = 0; z < 12; ++z) {
+		if (!sw("session3", x, y, z)) continue;
+		std::vector<Wav> ws;
+		for (unsigned i = 0; i < 3; ++i) { Wav w; w.base = std::string(1, char('p' + i)) + "_s"; w.ext = ".wav"; w.dir = ""; w.spec.fmt = f; w.spec.fmt18 = i & 1; w.spec.data.resize(i == 1 ? 8 : 5 + i); for (size_t k = 0; k < w.spec.data.size(); ++k) w.spec.data[k] = uint8_t(16 * (i + 1) + k); w.bytes = refclm::build_wav(w.spec); ws.push_back(w); }
+		const unsigned ops[3] = {x, y, z}; Tape t(tp); success_case(ws, f, t, st, ops);
 	}
 	if (sw("dup_dotted")) { std::vector<Wav> ws; const char* names[3][2] = {{"a", ".1"}, {"a.5", ".wav"}, {"a", ".9"}};
 		for (auto& n : names) { Wav w; w.base = n[0]; w.ext = n[1]; w.dir = ""; w.spec.fmt = f; w.spec.data = {1, 2, 3, 4}; w.bytes = refclm::build_wav(w.spec); ws.push_back(w); }
